@@ -231,8 +231,30 @@ pub fn events(args: &Args) -> i32 {
             prefix.push(tk("c", 1 + rng.below(5)));
         }
         let mut params: Vec<Vec<Value>> = vec![];
+        // delimiters with a repeated prefix (aab, aaab, aaabb, aabaab...) stress the streaming matcher's
+        // fall-back; the argument in front of them is then made of near misses of the delimiter
+        let mut near_miss: Vec<Option<(u64, u64)>> = vec![];
         for _ in 0..np {
             let mut dl = vec![];
+            if rng.chance(1, 4) {
+                let (x, y) = (1 + rng.below(5), 1 + rng.below(5));
+                if x != y {
+                    let k = 2 + rng.below(3);
+                    for _ in 0..k {
+                        dl.push(tk("c", x));
+                    }
+                    dl.push(tk("c", y));
+                    match rng.below(4) {
+                        0 => dl.push(tk("c", y)),
+                        1 => { dl.push(tk("c", x)); dl.push(tk("c", x)); dl.push(tk("c", y)); dl.push(tk("c", y)); }
+                        _ => {}
+                    }
+                    params.push(dl);
+                    near_miss.push(Some((x, y)));
+                    continue;
+                }
+            }
+            near_miss.push(None);
             if rng.chance(3, 5) {
                 for _ in 0..(1 + rng.below(3)) {
                     dl.push(match rng.below(8) {
@@ -298,6 +320,13 @@ pub fn events(args: &Args) -> i32 {
                 }
                 input.extend(one);
             } else {
+                if let Some((x, y)) = near_miss[i] {
+                    // replace the argument by a string over the delimiter's own letters
+                    arg.clear();
+                    for _ in 0..rng.below(12) {
+                        arg.push(tk("c", if rng.chance(2, 3) { x } else { y }));
+                    }
+                }
                 input.extend(arg);
                 input.extend(dl.iter().cloned());
             }
